@@ -4,6 +4,8 @@ pub mod c01;
 pub mod c02;
 pub mod c03;
 pub mod c04;
+pub mod c05;
+pub mod c06;
 pub mod c09;
 
 pub fn dispatch(id: &str, tier: Tier, seed: u64, extra: &[String]) -> i32 {
@@ -13,6 +15,8 @@ pub fn dispatch(id: &str, tier: Tier, seed: u64, extra: &[String]) -> i32 {
         "C02" => c02::run(&Ctx::new("C02", tier, seed)),
         "C03" => c03::run(&Ctx::new("C03", tier, seed)),
         "C04" => c04::run(&Ctx::new("C04", tier, seed)),
+        "C05" => c05::run(&Ctx::new("C05", tier, seed)),
+        "C06" => c06::run(&Ctx::new("C06", tier, seed)),
         "C09" => c09::run(&Ctx::new("C09", tier, seed)),
         _ => {
             eprintln!("unknown check {}", id);
